@@ -517,6 +517,25 @@ Definition read (caf vor : bool) (h : hdr) (shs : list item) (bytes : list N) : 
   | Undef => OUndef
   end.
 
+(* the shape of an item list: what the reading host program knows (kinds, Raw lengths,
+   classes and identities of its objects); all values erased *)
+Definition shape_leaf (l : leaf) : leaf :=
+  match l with
+  | LPrim k _ => LPrim k 0
+  | LRaw bs => LRaw (repeat 0 (length bs))
+  | LStr _ => LStr []
+  | LPtr s _ => LPtr s None
+  | LPos id => LPos id
+  end.
+
+Definition shape_item (it : item) : item :=
+  match it with
+  | ILeaf l => ILeaf (shape_leaf l)
+  | IObj c id body => IObj c id (map shape_leaf body)
+  end.
+
+Definition shape (its : list item) : list item := map shape_item its.
+
 (* the differential run of C10: the bytes written and what the current code reads back *)
 Definition run_case (h : hdr) (its : list item) : list N * outcome :=
-  let bytes := write h its in (bytes, read true true h its bytes).
+  let bytes := write h its in (bytes, read true true h (shape its) bytes).
